@@ -108,9 +108,24 @@ func (df *DataFrame) ToCSVWriter(writer io.Writer) error {
 	csvWriter := csv.NewWriter(writer)
 	defer csvWriter.Flush()
 
+	// writeRecord writes one record. encoding/csv writes a record consisting of a
+	// single empty field as an empty line, which every CSV reader (including
+	// FromCSVReader) skips; such a record is written as "" instead.
+	writeRecord := func(record []string) error {
+		if len(record) == 1 && record[0] == "" {
+			csvWriter.Flush()
+			if err := csvWriter.Error(); err != nil {
+				return err
+			}
+			_, err := io.WriteString(writer, "\"\"\n")
+			return err
+		}
+		return csvWriter.Write(record)
+	}
+
 	// Write header
 	header := df.ColumnNames()
-	if err := csvWriter.Write(header); err != nil {
+	if err := writeRecord(header); err != nil {
 		return fmt.Errorf("error writing header: %w", err)
 	}
 
@@ -124,7 +139,7 @@ func (df *DataFrame) ToCSVWriter(writer io.Writer) error {
 			}
 			row[idx] = fmt.Sprintf("%v", value)
 		}
-		if err := csvWriter.Write(row); err != nil {
+		if err := writeRecord(row); err != nil {
 			return fmt.Errorf("error writing row: %w", err)
 		}
 	}
